@@ -446,8 +446,8 @@ def run(ctx):
         n_edits = 40
     else:
         seeds_x = seeds
-        small = generated_files(ctx, 60, 10)
-        legacy = generated_legacy(ctx, 8)
+        small = generated_files(ctx, 110, 16)
+        legacy = generated_legacy(ctx, 14)
         n_edits = 400
     files = seeds_x + small + legacy
     ctx.log("files: %d (%d seeds, %d generated .xz, %d .lzma/.lz) in %.1fs" % (len(files), len(seeds_x), len(small), len(legacy), time.time() - t0))
